@@ -17,7 +17,8 @@ def run(ctx):
     quick = ctx.tier == "quick"
     n_choose = 3000 if quick else 40000
     n_runq = 1500 if quick else 30000
-    n_cq = 400 if quick else 15000
+    n_cq = 300 if quick else 15000
+    n_tq = 300 if quick else 15000
     stride = 16 if quick else 1
 
     def stages(ctx, mult, suffix, off):
@@ -30,19 +31,25 @@ def run(ctx):
         # entry with which InstanceType, what gets cancelled with the ChooseInstanceType error (package dispatchcloud)
         ctx.stage("cq" + suffix, "lib/dispatchcloud", "dispatchcloud", dc_files, "TestVerifC16CQ$",
                   n_cq * mult, HDR.format(imports="model.C16_model model.C16_run model.C16_runq model.C16_cq model.C16_cq_run"),
-                  seed_offset=off, shard=50 if quick else 400, env={"VERIF_STAGE": "cq" + suffix}, replace=_replace())
+                  seed_offset=off, shard=75 if quick else 400, env={"VERIF_STAGE": "cq" + suffix}, replace=_replace())
         # (*Scheduler).runQueue against the recording scripted stub pool/queue (package scheduler)
         rq_hdr = HDR.format(imports="model.C16_runq model.C16_runq_run")
-        ctx.stage("runq" + suffix, "lib/dispatchcloud/scheduler", "scheduler", ["C16/zz_verif_c16rq_test.go"], "TestVerifC16RQ$",
+        sc_files = ["C16/zz_verif_c16rq_test.go", "C16/zz_verif_c16tq_test.go"]   # same file set: one test binary build
+        ctx.stage("runq" + suffix, "lib/dispatchcloud/scheduler", "scheduler", sc_files, "TestVerifC16RQ$",
                   n_runq * mult, rq_hdr, seed_offset=off, shard=400, env={"VERIF_STAGE": "runq" + suffix}, replace=_replace())
+        # runQueue reading the real container.Queue: poll, then priority changes + lock/unlock/cancel responses, then a
+        # pass without a poll in between, judged against the snapshot "as the API server last told this dispatcher"
+        ctx.stage("tq" + suffix, "lib/dispatchcloud/scheduler", "scheduler", sc_files, "TestVerifC16TQ$",
+                  n_tq * mult, HDR.format(imports="model.C16_runq model.C16_runq_run model.C16_tq"), seed_offset=off,
+                  shard=75 if quick else 400, env={"VERIF_STAGE": "tq" + suffix}, replace=_replace())
         if not suffix:
             # exhaustive small scope (all 1-container snapshots, 2-container snapshots with a restricted
             # second container) x all small pool states; quick samples every 16th
-            ctx.stage("rqexh", "lib/dispatchcloud/scheduler", "scheduler", ["C16/zz_verif_c16rq_test.go"], "TestVerifC16RQExh$",
+            ctx.stage("rqexh", "lib/dispatchcloud/scheduler", "scheduler", sc_files, "TestVerifC16RQExh$",
                       0, rq_hdr, shard=400, env={"VERIF_STAGE": "rqexh", "VERIF_STRIDE": str(stride)}, timeout=1800,
                       replace=_replace())
     return standard(
-        ctx, "C16", ["model/C16_run.vo", "model/C16_runq_run.vo", "model/C16_cq_run.vo"], stages,
+        ctx, "C16", ["model/C16_run.vo", "model/C16_runq_run.vo", "model/C16_cq_run.vo", "model/C16_tq.vo"], stages,
         rule="choose: tables of 0-12 types (prices k/4 with many ties, twins, preemptible flags), one dimension (RAM after the "
              "100/95 scaling, VCPUs, scratch incl. image estimate) placed at exact fit / one unit above / below a target type, "
              "all ReserveExtraRAM values of the palette, int64-overflow and negative-spec strata, 12 PDH shapes; non-trivial = "
@@ -50,8 +57,12 @@ def run(ctx):
              "types with twins) over 1-6 API records first seen Queued / Locked or Running by this dispatcher's token (a "
              "dispatcher that has just started) / Locked by somebody else / final, constraints at exact fit, one unit above in "
              "RAM / VCPUs / scratch, above every type, image-dominated, with or without an earlier poll followed by legal state "
-             "changes, arrivals and deletions, failing lock / runtime_status / cancel requests; non-trivial = at least 2 entries "
-             "or cancellations.  runq: snapshots of 0-16 containers (distinct/tied/zero/negative priorities, all states, "
+             "changes, arrivals and deletions, failing lock / runtime_status / cancel requests, list responses cut to 1-3 items "
+             "(paging) and delivered as JSON decoded into the caller's value; non-trivial = at least 2 entries "
+             "or cancellations.  tq: runq snapshots of up to 8 containers served by a stub API server to the real queue, then "
+             "priorities raised / lowered / nudged across a neighbour and lock / unlock / re-lock / cancel requests whose "
+             "responses carry the current values, user cancels the dispatcher is not told about, then one runQueue pass; "
+             "non-trivial = at least 2 pool/queue calls and one response.  runq: snapshots of 0-16 containers (distinct/tied/zero/negative priorities, all states, "
              "created_at zero / equal / increasing / decreasing with priority / unrelated), 1-3 "
              "types, Unallocated/idle counts incl. inconsistent ones and missing keys, AtQuota/Create scripts that change "
              "during the pass; non-trivial = at least 2 pool/queue calls.  distinct by hash of the case term.",
@@ -61,6 +72,8 @@ def run(ctx):
             "can produce for SOME order (all permutations for <=5 types; proved order-independent characterisation above; all "
             "arrangements of tied priorities for runQueue)",
             "lockContainer goroutines are awaited by watching runtime.NumGoroutine(); their Lock calls are compared as a set",
+            "tq: the pass is judged against the poll records overridden by the later lock/unlock/cancel responses (theorems "
+            "C16_told_*); every record of the snapshot is reported as locked by this dispatcher so that all states reach the cache",
             "cq: the cancel goroutines of addEnt are awaited the same way (bound 60 s, expiry recorded as an observation); their "
             "requests are compared per container; which of several tied cheapest types an entry carries is compared as a "
             "relation (some iteration order of the table); the runtime_status message is compared as a class (equal to the "
